@@ -41,6 +41,8 @@ def gen_cases(pid, tier, seed, wd):
             c = enginegen.gen_case(rng, cid, dbdir=None, modes=("det",), cancel_p=0.1, restart_p=0.05)
         elif pid == "C07" and i % 6 == 5:
             c = enginegen.gen_cycle_back_case(rng, cid, dbdir=wd)
+        elif pid == "C07" and i % 6 == 4:
+            c = enginegen.gen_disc_cycle_case(rng, cid, dbdir=wd)
         elif pid == "C07":
             c = enginegen.gen_case(rng, cid, dbdir=wd, cyclic=(rng.random() < 0.5), rewire_cyclic=True, cancel_p=0.05,
                                    restart_p=0.35, rewire_p=0.6, sigchange_p=0.1, db_p=0.5)
